@@ -8,6 +8,7 @@ CONSTANTS
   Name = {n1, n2}
   Ctx = {c1, c2}
   Fn = {}
+  MethFn = {}
   MaxArg = 1
   MaxOps = 2
   MaxEnv = 0
